@@ -124,11 +124,12 @@ def dist(a, b):
 
 # option -> probe
 def probe_input(opt):
-    if opt in ('grep-file-style', 'grep-line-number-style'):
-        return b'probefile.rs:77:PROBETEXT here\n', ['git', 'grep', '-n', 'x']
+    if opt.startswith('grep-'):
+        return b'probefile.rs:77:PROBETEXT here\nprobefile.rs-78-PROBECTX there\n', ['git', 'grep', '-n', '-C1', 'x']
     lines = ['commit abcdefabcdefabcdefabcdefabcdefabcdefabcd', 'Author: A <a@b>', '', '    msg', '',
              'diff --git a/probefile.rs b/probefile.rs', 'index 1111111..2222222 100644', '--- a/probefile.rs', '+++ b/probefile.rs',
-             '@@ -77,3 +77,3 @@', ' PROBEZERO ctx', '-PROBEMINUS gone', ' MIDDLE ctx', '+PROBEPLUS new']
+             '@@ -77,3 +77,3 @@ PROBEFRAG()', ' PROBEZERO ctx', '-PROBEMINUS gone', ' MIDDLE ctx', '+PROBEPLUS new', ' SEP ctx',
+             '-PAIRED EMPHOLD tail of the line', '+PAIRED EMPHNEW tail of the line']
     return ('\n'.join(lines) + '\n').encode(), runner.NEUTRAL_PARENT
 
 
@@ -142,19 +143,37 @@ PROBES = {
     'hunk-header-file-style': ('probefile.rs', ['--hunk-header-style', 'file', '--file-style', 'omit']),
     'line-numbers-minus-style': ('78', ['--line-numbers', '--line-numbers-left-format', '<{nm}>', '--line-numbers-right-format', '']),
     'line-numbers-zero-style': ('79', ['--line-numbers', '--line-numbers-left-format', '<{nm}>', '--line-numbers-right-format', '']),
+    'line-numbers-plus-style': ('79', ['--line-numbers', '--line-numbers-left-format', '', '--line-numbers-right-format', '<{np}>']),
+    'line-numbers-left-style': ('«', ['--line-numbers', '--line-numbers-left-format', '«{nm}»', '--line-numbers-right-format', '']),
+    'line-numbers-right-style': ('»', ['--line-numbers', '--line-numbers-left-format', '', '--line-numbers-right-format', '«{np}»']),
+    'hunk-header-style': ('PROBEFRAG()', ['--hunk-header-decoration-style', 'none']),
+    'minus-emph-style': ('EMPHOLD', []),
+    'plus-emph-style': ('EMPHNEW', []),
+    'minus-non-emph-style': ('PAIRED ', ['--minus-emph-style', 'bold 17 52']),
+    'plus-non-emph-style': ('tail of the line@@EMPHNEW', ['--plus-emph-style', 'bold 17 22']),
+    'grep-match-line-style': ('PROBETEXT here', []),
+    'grep-context-line-style': ('PROBECTX there', []),
     'grep-file-style': ('probefile.rs', []),
     'grep-line-number-style': ('77', []),
 }
-HEADER_OPTS = {'file-style', 'commit-style', 'hunk-header-file-style', 'hunk-header-line-number-style'}
+HEADER_OPTS = {'file-style', 'commit-style', 'hunk-header-file-style', 'hunk-header-line-number-style', 'hunk-header-style'}
 AUTO_DEFINED = {'minus-style', 'plus-style', 'zero-style'}
 RAW_OMIT_DEFINED = {'minus-style': 'raw', 'plus-style': 'raw', 'zero-style': 'raw', 'file-style': 'both', 'commit-style': 'both'}
-IN_SHOW_CONFIG = {'minus-style', 'plus-style', 'zero-style', 'file-style', 'commit-style', 'grep-file-style', 'grep-line-number-style'}
+IN_SHOW_CONFIG = {'minus-style', 'plus-style', 'zero-style', 'file-style', 'commit-style', 'grep-file-style', 'grep-line-number-style', 'hunk-header-style',
+                  'minus-emph-style', 'plus-emph-style', 'minus-non-emph-style', 'plus-non-emph-style', 'line-numbers-minus-style',
+                  'line-numbers-plus-style', 'line-numbers-zero-style', 'line-numbers-left-style', 'line-numbers-right-style',
+                  'grep-match-line-style', 'grep-context-line-style', 'hunk-header-file-style', 'hunk-header-line-number-style'}
 
 
 def find_cells(out, text):
-    """Cells of the first occurrence of `text` in the output rows."""
+    """Cells of the first occurrence of `text` in the output rows ("text@@marker": in the first row that holds marker)."""
+    marker = None
+    if '@@' in text:
+        text, marker = text.split('@@')
     for r in term.decode(out):
         t = r.text()
+        if marker is not None and marker not in t:
+            continue
         k = t.find(text)
         if k < 0:
             continue
@@ -237,7 +256,7 @@ def EXHAUSTIVE(ctx):
     return ctx.tier == 'thorough'
 
 
-EXHAUSTIVE_SCOPE = 'all strings of <= 3 tokens over the %d-token set (every string of <= 2 tokens for each of the 11 options), and all 256 palette numbers in both positions' % len(TOKENS)
+EXHAUSTIVE_SCOPE = 'all strings of <= 3 tokens over the %d-token set (every string of <= 2 tokens for each of the %d probed options), and all 256 palette numbers in both positions' % (len(TOKENS), len(PROBES))
 
 
 def decorate_case(rng, s):
